@@ -1,3 +1,4 @@
+from .common import frame_unit, GATE_FILES, TOMO_FILES
 LEVEL = "other"
 EXPLANATION = "under construction"
 ASSUMPTIONS = ["A1: exact reals (xlift units)", "scipy.linalg.sqrtm principal root (fidelity, native units only)"]
@@ -8,4 +9,5 @@ def units(tier):
     u = [dict(kind="xlift", mechanism="xlift symbolic (B): preparation angles symbolic", name=f"xlift:state-tomography[n={n}]", module="vf.tasks.t_tomo", func="unit", args=dict(which="state", n=n)) for n in (1, 2)]
     for n in (1, 2, 3):
         u.append(dict(kind="func", mechanism="bounded runtime contract (C), native floats", name=f"bounded:state-tomography-native[n={n}]", module="vf.tasks.t_tomo", func="unit", args=dict(mode="native", which="state", n=n)))
+    u.append(frame_unit("tomography", TOMO_FILES + GATE_FILES))
     return u
